@@ -35,7 +35,12 @@ impl BlobWriter {
         Ok(())
     }
 
-    pub(crate) fn write_record(&mut self, record: Record) -> AnyResult<()> {
+    pub(crate) fn write_record(&mut self, mut record: Record) -> AnyResult<()> {
+        if record.header.blob_offset() != self.written {
+            // The record lands at another position than it was read from (a damaged record before
+            // it was skipped): the storage reads a record at `header.blob_offset`, so it has to follow
+            record.header = record.header.with_blob_offset(self.written)?;
+        }
         bincode::serialize_into(&mut self.file, &record.header).with_context(|| "write header")?;
         let mut written = 0;
         written += bincode::serialized_size(&record.header)?;
